@@ -566,7 +566,14 @@ std::ostream& type_t::print_declaration(std::ostream& os) const
         }
     } else if (array) {
         get(0).print_declaration(os) << '[';
-        get_array_size().get_range().second.get(0).print(os) << ']';
+        // a size n is stored as the index type int[0,n-1]; an array may also be indexed by a type (int[0,2], a type name, a scalar set)
+        const auto index = get_array_size();
+        const auto upper = index.get_kind() == RANGE ? index.get_range().second : expression_t{};
+        if (!upper.empty() && upper.get_kind() == MINUS && upper.get_size() == 2)
+            upper.get(0).print(os);
+        else
+            index.print_declaration(os);
+        os << ']';
     } else if (label) {
         os << get_label(0);
     } else if (typeDef) {
